@@ -94,6 +94,31 @@ Definition pn53x_readreg_outcome (d : dir) (with_status : bool) (nregs : Z) (pay
   | CErr n => ORaise (pn53x_error_map d n)
   end.
 
+(* Register VALUES reported during the register-programmed paths (repairs c13-10..12).
+   read_register delivers exactly one value per requested register (c13-8, c13-10). *)
+
+(* pn53x.Device._tt3_send_rsp_recv_cmd, one polling round: CIU_CommIRq, CIU_DivIRq, then CIU_FIFOLevel,
+   then that many CIU_FIFOData values *)
+Inductive poll := PollAgain | PollOut (o : out).
+Definition tt3_poll (commirq divirq fifo_level : Z) (fifo : list Z) : poll :=
+  if negb (Z.land divirq 1 =? 0) then PollOut (ORaise XBrokenLink)          (* external field switched off *)
+  else if Z.land commirq 32 =? 0 then PollAgain                             (* RxIRq not set *)
+  else if negb ((0 <? fifo_level) && (fifo_level <=? 64)) then PollOut (ORaise XTransmission)
+  else match fifo with
+       | [] => PollOut (ORaise XIndexError)
+       | b :: _ => if b =? Z.of_nat (length fifo) then PollOut OData else PollOut (ORaise XTransmission)
+       end.
+Definition poll_allowed (p : poll) : bool := match p with PollAgain => true | PollOut o => allowed o end.
+
+(* pn532/pn533 Device._tt1_send_cmd_recv_rsp, register path: CIU_FIFOLevel, then that many CIU_FIFOData values
+   holding 9 bits per received byte; crc_ok: result of the CRC_B check on the decoded bytes *)
+Definition tt1_decoded_count (level : Z) : Z := (8 * level) / 9.     (* len(range(0, 8*level - 8, 9)) *)
+Definition tt1_fifo_outcome (level : Z) (crc_ok : bool) : out :=
+  if level =? 0 then ORaise XTimeout
+  else if 64 <? level then ORaise XTransmission
+  else if tt1_decoded_count level <? 2 then ORaise XTransmission
+  else if crc_ok then OData else ORaise XTransmission.
+
 (* ------------------------------------------------------------------ RC-S380 *)
 Definition le32 (b0 b1 b2 b3 : Z) : Z := b0 + 256 * b1 + 65536 * b2 + 16777216 * b3.
 
